@@ -206,9 +206,11 @@ func (k kind) zero() string {
 	case "error":
 		return "(Ok tt)"
 	case "slice":
-		return "[]"
-	case "ptr", "bigint":
-		return "None"
+		return "(@nil " + k.elem.coqType() + ")"
+	case "ptr":
+		return "(@None " + k.elem.coqType() + ")"
+	case "bigint":
+		return "(@None Z)"
 	case "time":
 		return "time_zero"
 	}
@@ -290,6 +292,11 @@ func (t *tr) isErrCtor(obj *types.Func) bool {
 				if len(r.Results) != 1 {
 					good = false
 					return true
+				}
+				if id, ok := r.Results[0].(*ast.Ident); ok {
+					if v, ok := t.p.info.Uses[id].(*types.Var); ok && v.Parent() == t.p.pkg.Scope() && t.pkgErrVar(v) {
+						return true
+					}
 				}
 				c, ok := r.Results[0].(*ast.CallExpr)
 				if !ok {
@@ -522,6 +529,29 @@ func (t *tr) expr(e ast.Expr) string {
 	case *ast.Ident:
 		switch obj := t.p.info.Uses[x].(type) {
 		case *types.Var:
+			if t.ext {
+				if t.dropped[obj.Name()] {
+					t.fail(e, "parameter %s has no Gallina counterpart and is used outside an error constructor", obj.Name())
+				}
+				if t.destNil[obj.Name()] {
+					t.fail(e, "destination pointer %s used as a value", obj.Name())
+				}
+				if t.optVars[obj.Name()] {
+					// a nil-able pointer used as the value it points to (only *big.Int / *big.Float are passed around like this)
+					k := kindOf(obj.Type())
+					if k.k != "bigint" && k.k != "bigfloat" {
+						t.fail(e, "pointer %s used as a value", obj.Name())
+					}
+					t.needNonNil(e, obj.Name())
+					if k.k == "bigfloat" {
+						return "(unopt (0, 0) " + coqIdent(obj.Name()) + ")"
+					}
+					return "(unopt 0 " + coqIdent(obj.Name()) + ")"
+				}
+				if kindOf(obj.Type()).k == "error" && obj.Parent() == t.p.pkg.Scope() {
+					return t.errExpr(e)
+				}
+			}
 			return coqIdent(obj.Name())
 		case *types.Nil:
 			t.fail(e, "nil outside a supported position")
@@ -695,10 +725,13 @@ func (t *tr) args(xs []ast.Expr) string {
 	var b strings.Builder
 	for _, a := range xs {
 		if t.ext {
-			if k := kindOf(t.typeOf(a)); k.k == "other" {
+			if k := kindOf(t.typeOf(a)); k.k == "other" || k.k == "error" {
 				continue // dropped on both sides (definition and call), e.g. *time.Location
 			}
-			if k := kindOf(t.typeOf(a)); k.k == "iface" || k.k == "error" {
+			if id, ok := a.(*ast.Ident); ok && t.destNil[id.Name] {
+				continue // a typed destination pointer handed to a storing helper: what is stored comes back in the result
+			}
+			if k := kindOf(t.typeOf(a)); k.k == "iface" {
 				id, ok := a.(*ast.Ident)
 				if !ok {
 					t.fail(a, "interface-typed argument must be a variable")
@@ -754,6 +787,16 @@ func (t *tr) call(x *ast.CallExpr) string {
 				return "(" + coqIdent(obj.Name()) + t.args(x.Args) + ")"
 			}
 		case *types.Builtin:
+			if t.ext {
+				switch obj.Name() {
+				case "len":
+					return "(len_Z " + t.expr(x.Args[0]) + ")"
+				case "make":
+					if k := kindOf(t.typeOf(x)); k.k == "slice" && k.elem.k == "int" && len(x.Args) == 2 {
+						return "(make_bytes " + t.expr(x.Args[1]) + ")"
+					}
+				}
+			}
 			t.fail(x, "builtin %s", obj.Name())
 		}
 	case *ast.SelectorExpr:
@@ -765,7 +808,49 @@ func (t *tr) call(x *ast.CallExpr) string {
 				case "IsInt64", "IsUint64", "Int64", "Uint64":
 					return "(big_" + m.Name() + " " + t.expr(f.X) + ")"
 				}
+				if t.ext {
+					src := t.p.srcOf(f.X)
+					switch {
+					case m.Name() == "Text" && len(x.Args) == 1:
+						t.usesO = true
+						return "(o_BigText O " + t.expr(f.X) + t.args(x.Args) + ")"
+					case m.Name() == "SetUint64" && src == "new(big.Int)":
+						return t.expr(x.Args[0])
+					case m.Name() == "SetInt64" && src == "new(big.Int)":
+						return t.expr(x.Args[0])
+					case m.Name() == "SetString" && src == "new(big.Int)":
+						t.usesO = true
+						return "(o_BigSetString O" + t.args(x.Args) + ")"
+					}
+				}
 				t.fail(x, "big.Int method %s", m.Name())
+			}
+			if t.ext && recvK.k == "bigfloat" && m.Name() == "Float64" {
+				t.usesO = true
+				return "(o_BigFloat_Float64 O " + t.expr(f.X) + ")"
+			}
+			if t.ext && recvK.k == "time" {
+				switch m.Name() {
+				case "UTC":
+					return t.expr(f.X)
+				case "In":
+					return t.expr(f.X)
+				case "Unix":
+					return "(time_sec " + t.expr(f.X) + ")"
+				case "Nanosecond":
+					return "(time_nsec " + t.expr(f.X) + ")"
+				case "Hour", "Minute", "Second":
+					return "(time_" + m.Name() + " " + t.expr(f.X) + ")"
+				case "Format":
+					t.usesO = true
+					return "(o_TimeFormat O " + t.expr(f.X) + t.args(x.Args) + ")"
+				case "Add":
+					return "(time_Add " + t.expr(f.X) + t.args(x.Args) + ")"
+				}
+				t.fail(x, "time.Time method %s", m.Name())
+			}
+			if t.ext && recvK.k == "int" && m.Pkg() != nil && m.Pkg().Path() == "time" && m.Name() == "Nanoseconds" {
+				return t.expr(f.X) // time.Duration.Nanoseconds: the int64 itself
 			}
 			if m.Pkg() == t.p.pkg {
 				name := methodCoqName(sel.Recv(), m.Name())
@@ -781,6 +866,35 @@ func (t *tr) call(x *ast.CallExpr) string {
 				case "fmt.Sprintf":
 					if s, ok := t.constExpr(x.Args[0]); ok {
 						return "(sprintf " + s + ")"
+					}
+				}
+				if t.ext {
+					switch full {
+					case "strconv.ParseInt":
+						t.usesO = true
+						return "(o_ParseInt O" + t.args(x.Args) + ")"
+					case "strconv.FormatInt":
+						t.usesO = true
+						return "(o_FormatInt O" + t.args(x.Args) + ")"
+					case "math/big.NewInt":
+						return t.expr(x.Args[0])
+					case "math.IsNaN":
+						t.usesO = true
+						return "(o_f64_isnan O" + t.args(x.Args) + ")"
+					case "math.Float32bits", "math.Float64bits", "math.Float32frombits", "math.Float64frombits":
+						return t.expr(x.Args[0]) // floats are carried as their bit patterns
+					case "time.Unix":
+						return "(time_Unix" + t.args(x.Args) + ")"
+					case "time.Parse":
+						t.usesO = true
+						return "(o_TimeParse O" + t.args(x.Args) + ")"
+					case "time.ParseInLocation":
+						t.usesO = true
+						return "(o_TimeParse O" + t.args(x.Args) + ")" // the *time.Location argument is dropped
+					case "time.Date":
+						if t.p.srcOf(x) == "time.Date(0, time.January, 1, 0, 0, 0, 0, time.UTC)" {
+							return "time_year0"
+						}
 					}
 				}
 				t.fail(x, "call to %s", full)
@@ -1254,11 +1368,24 @@ func isStoringSig(sig *types.Signature) string {
 	}
 	for i := 0; i < sig.Params().Len(); i++ {
 		v := sig.Params().At(i)
-		if v.Name() == "dest" && kindOf(v.Type()).k == "iface" {
+		if k := kindOf(v.Type()).k; v.Name() == "dest" && (k == "iface" || k == "bigfloat" || k == "bigint") {
 			return v.Name()
 		}
 	}
 	return ""
+}
+
+// storingCall: a call to a translated function that stores through a destination it is handed.
+func (t *tr) storingCall(c *ast.CallExpr) bool {
+	id, ok := c.Fun.(*ast.Ident)
+	if !ok {
+		return false
+	}
+	f, ok := t.p.info.Uses[id].(*types.Func)
+	if !ok || f.Pkg() != t.p.pkg || t.isErrCtor(f) {
+		return false
+	}
+	return isStoringSig(f.Type().(*types.Signature)) != ""
 }
 
 func (t *tr) calleeSig(c *ast.CallExpr) *types.Signature {
@@ -1296,7 +1423,7 @@ func (t *tr) retExt(r *ast.ReturnStmt) string {
 			t.fail(r, "return arity")
 		}
 		if c, ok := r.Results[0].(*ast.CallExpr); ok {
-			if sg := t.calleeSig(c); sg != nil && isStoringSig(sg) != "" {
+			if t.storingCall(c) {
 				return t.call(c) // forwards value stored and error
 			}
 		}
@@ -1354,10 +1481,14 @@ func (t *tr) valueFor(e ast.Expr, wantOpt bool) string {
 }
 
 // storeExpr builds the goval stored by "*d = e" / "*d, err = f()" (tmp already translated when e is nil).
-func (t *tr) storeValue(n ast.Node, elem types.Type, e ast.Expr, tmp string) string {
+func (t *tr) storeValue(n ast.Node, elem types.Type, e ast.Expr, tmp string, vt types.Type) string {
 	if i, ok := elem.Underlying().(*types.Interface); ok && i.NumMethods() == 0 {
 		if e == nil {
-			t.fail(n, "multi-value store into an interface")
+			c, ok := govalCtor(vt)
+			if !ok || strings.HasPrefix(c, "G_p") {
+				t.fail(n, "value of type %s stored into an interface", vt)
+			}
+			return "(" + c + " " + tmp + ")"
 		}
 		if isNil(e) {
 			return "G_nil"
@@ -1466,7 +1597,7 @@ func (t *tr) blockExt(stmts []ast.Stmt, rest func() string) (string, bool) {
 			if d, ok := t.destIdent(x.Lhs[0]); ok {
 				t.needNonNil(x, d)
 				elem := t.typeOf(x.Lhs[0])
-				return let(t.storeVar, "(Some "+t.storeValue(x, elem, x.Rhs[0], "")+")"), true
+				return let(t.storeVar, "(Some "+t.storeValue(x, elem, x.Rhs[0], "", nil)+")"), true
 			}
 			id, ok := x.Lhs[0].(*ast.Ident)
 			if !ok {
@@ -1478,6 +1609,11 @@ func (t *tr) blockExt(stmts []ast.Stmt, rest func() string) (string, bool) {
 			}
 			delete(t.nilAlias, id.Name)
 			if lk.k == "error" {
+				if c, ok := x.Rhs[0].(*ast.CallExpr); ok && t.storeVar != "" {
+					if t.storingCall(c) {
+						return "(let '(" + t.storeVar + ", " + coqIdent(id.Name) + ") := res_split " + t.storeVar + " " + t.call(c) + " in\n  " + next() + ")", true
+					}
+				}
 				return let(id.Name, t.errExpr(x.Rhs[0])), true
 			}
 			if t.optVars[id.Name] {
@@ -1522,7 +1658,7 @@ func (t *tr) blockExt(stmts []ast.Stmt, rest func() string) (string, bool) {
 					tmp := fmt.Sprintf("tmp%d_", i)
 					pat = append(pat, tmp)
 					dfl = append(dfl, vk.zero())
-					post = append(post, "let "+t.storeVar+" := (Some "+t.storeValue(x, t.typeOf(l), nil, tmp)+") in")
+					post = append(post, "let "+t.storeVar+" := (Some "+t.storeValue(x, t.typeOf(l), nil, tmp, tup.At(i).Type())+") in")
 					continue
 				}
 				id, ok := l.(*ast.Ident)
@@ -1771,11 +1907,13 @@ func (t *tr) typeSwitch(x *ast.TypeSwitchStmt, stmts []ast.Stmt, rest func() str
 }
 
 type coqDef struct {
-	name string
-	text string
-	deps map[string]bool
-	node ast.Node
-	goNm string
+	name  string
+	text  string
+	deps  map[string]bool
+	node  ast.Node
+	goNm  string
+	usesO bool             // calls an oracle directly (extended subset)
+	sig   *types.Signature // extended subset only
 }
 
 func (t *tr) resultType() string {
@@ -1834,6 +1972,119 @@ func translateFunc(p *pkgInfo, fd *ast.FuncDecl) coqDef {
 		text = "Definition " + name + " : " + t.resultType() + " :=\n  " + body + "."
 	}
 	return coqDef{name: name, text: text, deps: t.deps, node: fd, goNm: fd.Name.Name}
+}
+
+// translateFuncExt: translateFunc for the extended subset (see blockExt).
+func translateFuncExt(p *pkgInfo, fd *ast.FuncDecl) coqDef {
+	obj := p.info.Defs[fd.Name].(*types.Func)
+	sig := obj.Type().(*types.Signature)
+	t := &tr{p: p, deps: map[string]bool{}, fn: fd, sig: sig, ext: true,
+		optVars: map[string]bool{}, nonNil: map[string]int{}, nilAlias: map[string]string{}, destNil: map[string]bool{}, dropped: map[string]bool{}}
+	name := coqIdent(fd.Name.Name)
+	var params []string
+	if sig.Recv() != nil {
+		name = methodCoqName(sig.Recv().Type(), fd.Name.Name)
+		if rn := sig.Recv().Name(); rn != "" && rn != "_" {
+			t.dropped[rn] = true
+		}
+	}
+	t.destParam = isStoringSig(sig)
+	if t.destParam != "" {
+		t.storeVar = t.destParam + "_st"
+	}
+	for i := 0; i < sig.Params().Len(); i++ {
+		v := sig.Params().At(i)
+		pn := v.Name()
+		if pn == "" || pn == "_" {
+			pn = fmt.Sprintf("arg%d_", i)
+		}
+		k := kindOf(v.Type())
+		switch {
+		case k.k == "other" || k.k == "error":
+			t.dropped[pn] = true
+			continue
+		case k.k == "iface" && pn == t.destParam:
+			params = append(params, "("+coqIdent(pn)+" : godst)")
+		case pn == t.destParam:
+			// typed destination pointer, non-nil by the callers' guard: only what is stored is modelled
+			t.destNil[pn] = true
+			t.nonNil[pn] = 1
+		case k.k == "ptr":
+			t.fail(fd, "pointer parameter %s", pn)
+		default:
+			params = append(params, "("+coqIdent(pn)+" : "+k.coqType()+")")
+		}
+	}
+	var pre []string
+	res := sig.Results()
+	for i := 0; i < res.Len(); i++ {
+		v := res.At(i)
+		if v.Name() == "" || v.Name() == "_" {
+			continue
+		}
+		k := kindOf(v.Type())
+		nr := namedRes{name: v.Name(), k: k, opt: t.resOpt(sig, i)}
+		if nr.opt {
+			t.optVars[v.Name()] = true
+		}
+		t.named = append(t.named, nr)
+		pre = append(pre, "let "+coqIdent(v.Name())+" := "+k.zero()+" in")
+	}
+	if len(t.named) != 0 && len(t.named) != res.Len() {
+		t.fail(fd, "partly named results")
+	}
+	if t.storeVar != "" {
+		if len(t.named) == 0 {
+			// unnamed (err error): give the error a name only bare returns would use; none exist then
+		}
+		pre = append(pre, "let "+t.storeVar+" := @None goval in")
+	}
+	body := t.block(fd.Body.List, nil)
+	for i := len(pre) - 1; i >= 0; i-- {
+		body = "(" + pre[i] + "\n  " + body + ")"
+	}
+	rty := t.resultTypeExt()
+	text := "Definition " + name + " " + strings.Join(params, " ") + " : " + rty + " :=\n  " + body + "."
+	if len(params) == 0 {
+		text = "Definition " + name + " : " + rty + " :=\n  " + body + "."
+	}
+	return coqDef{name: name, text: text, deps: t.deps, node: fd, goNm: fd.Name.Name, usesO: t.usesO, sig: sig}
+}
+
+func (t *tr) resultTypeExt() string {
+	if t.storeVar != "" {
+		return "result (option goval)"
+	}
+	res := t.sig.Results()
+	if res.Len() == 0 {
+		panic(unsupported("function without result"))
+	}
+	ty := func(i int) string {
+		if t.resOpt(t.sig, i) {
+			return "(option Z)"
+		}
+		return kindOf(res.At(i).Type()).coqType()
+	}
+	if res.Len() == 1 {
+		return ty(0)
+	}
+	last := kindOf(res.At(res.Len() - 1).Type())
+	var parts []string
+	n := res.Len()
+	if last.k == "error" {
+		n--
+	}
+	for i := 0; i < n; i++ {
+		parts = append(parts, ty(i))
+	}
+	inner := strings.Join(parts, " * ")
+	if last.k == "error" {
+		if len(parts) > 1 {
+			inner = "(" + inner + ")"
+		}
+		return "result " + inner
+	}
+	return "(" + inner + ")"
 }
 
 // topo orders definitions so that each follows what it uses.
